@@ -568,7 +568,13 @@ pub(crate) fn add_float_format<W, R, T>(
             }
             let Some(specs) = XFormatting::from_str(s1.as_str()) else {return xerr(ManagedXError::new("invalid format spec", rt)?);};
 
-            rt.can_allocate(specs.min_width())?;
+            // the fraction digits are written out: they count like the width does
+            let precision = specs.precision.unwrap_or(6);
+            rt.can_allocate(specs.min_width().max(precision))?;
+            if precision > u16::MAX as usize {
+                // more than the host formatting machinery accepts (it panics beyond this)
+                return xerr(ManagedXError::new("precision too large", rt)?);
+            }
 
             let mag = f0.abs();
             if specs.ty.alternative{
@@ -577,7 +583,7 @@ pub(crate) fn add_float_format<W, R, T>(
             let body = match get_body(
                 mag,
                 specs.ty.type_,
-                specs.precision.unwrap_or(6),
+                precision,
                 specs.grouping,
             ) {
                 Ok(body)=>body,
